@@ -105,18 +105,39 @@ def check(ctx):
             is_test = any(t.kind == "test" and t.ast is n.ast for t in g.nodes)
             ctx.ob("skip.non-empty-only", lt, n.ast, is_test, "the key is skipped only when the variable is set and non-empty" if is_test else
                    "the skip does not depend on the variable being non-empty", node=n)
-    # the skip happens before to_python / _set_value in the same iteration
+    # the skip happens before to_python / _set_value in the same iteration: load_tree specialised for "the entry belongs to
+    # a Field whose variable is named and set" must not reach the decoder or the store
+    from engine.specialize import Spec
     set_value = model.method("Config", "_set_value")
+    ftl = an.ft(lt)
+    read_asts = {id(n.ast) for f2, n in sites if f2 is lt}
+
+    def is_env_name(e, node):
+        e2 = expand_aliases(lt, e, node)
+        return isinstance(e2, ast.Attribute) and e2.attr == "env"
+
+    def decide(e, node):
+        if id(e) in read_asts:
+            return True
+        if isinstance(e, ast.Call) and isinstance(e.func, ast.Name) and e.func.id == "isinstance" and len(e.args) == 2:
+            spec = ftl.class_spec(e.args[1], {}) or []
+            if is_env_name(e.args[0], node) and "str" in spec:
+                return True
+            if spec == ["Field"]:
+                return True
+        if is_env_name(e, node):
+            return True
+        if isinstance(e, ast.Call) and isinstance(e.func, ast.Name) and e.func.id == "bool" and len(e.args) == 1:
+            return None
+        return None
+    sp = Spec(an, lt, decide)
+    stored = [x for x in g.nodes if x.kind == "call" and set_value in an.callees(lt, x) and x in sp.normal]
+    decoded = [x for x in g.nodes if x in sp.normal and any(e[0] == "CODEC" and e[2] == "to_python" for e in calls.direct(lt, x))]
     for f2, n in sites:
         if f2 is lt:
-            tnode = [t for t in g.nodes if t.kind == "test" and t.ast is n.ast]
-            for t in tnode:
-                for s, lbl in t.succ:
-                    if lbl is True:
-                        p = None if s.kind == "for_iter" else g.path(
-                            s, lambda x: set_value in an.callees(lt, x), may_raise=lambda x: False, stop=lambda x: x.kind == "for_iter")
-                        ctx.ob("skip.precedes-store", lt, n.ast, p is None, "a skipped key is neither decoded nor stored" if p is None else
-                               "the value of a skipped key is still stored", node=t)
+            okp = not stored and not decoded
+            ctx.ob("skip.precedes-store", lt, n.ast, okp, "a skipped key is neither decoded nor stored" if okp else
+                   "the value of a skipped key is still %s" % ("stored" if stored else "decoded"), node=(stored or decoded or [n])[0])
 
     # ---------------------------------------------------------------- C14.2
     g = an.cfg(sd)
@@ -181,8 +202,10 @@ def check(ctx):
     sv = model.method("Config", "_set_value")
     g = an.cfg(sv)
     ft = an.ft(sv)
-    field_tests = [t for t in g.nodes if t.kind == "test" and isinstance(t.ast, ast.Call) and ast.unparse(t.ast.func) == "isinstance"
-                   and "Field" in (ft.class_spec(t.ast.args[1], {}) or [])]
+    def is_field_test(t):
+        e = expand_aliases(sv, t.ast, t)        # also `is_value_field = isinstance(field, Field)` tested later
+        return isinstance(e, ast.Call) and ast.unparse(e.func) == "isinstance" and len(e.args) == 2 and "Field" in (ft.class_spec(e.args[1], {}) or [])
+    field_tests = [t for t in g.nodes if t.kind == "test" and is_field_test(t)]
     ctx.need(bool(field_tests), "Config._set_value lost its Field branch")
     for t in field_tests:
         for s, lbl in t.succ:
